@@ -16,6 +16,11 @@
 #include "awkward/forth/ForthInputBuffer.h"
 #include "awkward/forth/ForthOutputBuffer.h"
 #include "awkward/array/NumpyArray.h"
+#include "awkward/array/VirtualArray.h"
+#include "awkward/array/ListOffsetArray.h"
+#include "awkward/virtual/ArrayGenerator.h"
+#include "awkward/virtual/ArrayCache.h"
+#include "awkward/partition/IrregularlyPartitionedArray.h"
 
 namespace ak = awkward;
 namespace rj = rapidjson;
@@ -201,6 +206,168 @@ static std::string json_write(const JV& st, Session& S) {
   return "{\"ok\":1,\"text\":" + jstr(text) + "}";
 }
 
+
+// ------------------------------------------------------------------ VirtualArray with a harness-owned generator and cache (C18)
+namespace {
+struct GenState {
+  ak::ContentPtr eager, alt;       // what a well-behaved / misbehaving generator returns
+  std::string mode;                // ok | short | wrongform | raises | raise_first
+  int64_t calls = 0;
+};
+class TestGenerator : public ak::ArrayGenerator {
+public:
+  TestGenerator(const ak::FormPtr& form, int64_t length, const std::shared_ptr<GenState>& st)
+      : ak::ArrayGenerator(form, length), st_(st) {}
+  const ak::ContentPtr generate() const override {
+    st_->calls++;
+    if (st_->mode == "raises") throw std::invalid_argument("generator failed (harness)");
+    if (st_->mode == "raise_first" && st_->calls == 1) throw std::invalid_argument("generator failed once (harness)");
+    if (st_->mode == "short" || st_->mode == "wrongform") return st_->alt;
+    return st_->eager;
+  }
+  void caches(std::vector<ak::ArrayCachePtr>& out) const override {}
+  const std::string tostring_part(const std::string& indent, const std::string& pre, const std::string& post) const override {
+    return indent + pre + "<TestGenerator/>" + post;
+  }
+  const std::shared_ptr<ak::ArrayGenerator> shallow_copy() const override { return std::make_shared<TestGenerator>(form_, length_, st_); }
+  const std::shared_ptr<ak::ArrayGenerator> with_form(const ak::FormPtr& form) const override { return std::make_shared<TestGenerator>(form, length_, st_); }
+  const std::shared_ptr<ak::ArrayGenerator> with_length(int64_t length) const override { return std::make_shared<TestGenerator>(form_, length, st_); }
+  bool referentially_equal(const ak::ArrayGeneratorPtr& other) const override { return other.get() == this; }
+private:
+  std::shared_ptr<GenState> st_;
+};
+class TestCache : public ak::ArrayCache {
+public:
+  explicit TestCache(const std::string& kind) : kind_(kind) {}
+  ak::ContentPtr get(const std::string& key) const override {
+    gets_++;
+    auto it = map_.find(key);
+    return it == map_.end() ? ak::ContentPtr(nullptr) : it->second;
+  }
+  void set(const std::string& key, const ak::ContentPtr& value) override {
+    sets_++;
+    if (kind_ == "keep") map_[key] = value;        // "evict_always": forgets at once
+  }
+  bool is_broken() const override { return false; }
+  const std::string tostring_part(const std::string& indent, const std::string& pre, const std::string& post) const override {
+    return indent + pre + "<TestCache/>" + post;
+  }
+  void evict() { map_.clear(); }
+  size_t held() const { return map_.size(); }
+  mutable int64_t gets_ = 0; int64_t sets_ = 0;
+private:
+  std::string kind_;
+  std::map<std::string, ak::ContentPtr> map_;
+};
+}
+
+// one observation of an array (or scalar) as JSON text
+static std::string observe(const ak::ContentPtr& c) {
+  return c->tojson(false, -1, "nan", "inf", "-inf", "re", "im");
+}
+
+static std::string virtual_op(const ak::ContentPtr& arr, const JV& o) {
+  std::string k = gets(o, "op", "");
+  if (k == "length") return "{\"ok\":1,\"int\":" + std::to_string((long long)arr->length()) + "}";
+  if (k == "form") return "{\"ok\":1,\"text\":" + jstr(arr->form(false)->type(default_typestrs())->tostring()) + "}";
+  if (k == "type") return "{\"ok\":1,\"text\":" + jstr(arr->type(default_typestrs())->tostring()) + "}";
+  if (k == "tojson") return "{\"ok\":1,\"text\":" + jstr(observe(arr)) + "}";
+  if (k == "at") return "{\"ok\":1,\"text\":" + jstr(observe(arr->getitem_at(geti(o, "i", 0)))) + "}";
+  if (k == "range") return "{\"ok\":1,\"text\":" + jstr(observe(arr->getitem_range(geti(o, "a", 0), geti(o, "b", 0)))) + "}";
+  if (k == "range_lazy") {          // the slice itself, observed only through its length (must not need the data)
+    ak::ContentPtr r = arr->getitem_range(geti(o, "a", 0), geti(o, "b", 0));
+    return "{\"ok\":1,\"int\":" + std::to_string((long long)r->length()) + "}";
+  }
+  if (k == "num") return "{\"ok\":1,\"text\":" + jstr(observe(arr->num(geti(o, "axis", 1), 0))) + "}";
+  if (k == "carry") { ak::Index64 ix = mkindex64(need(o, "index")); return "{\"ok\":1,\"text\":" + jstr(observe(arr->carry(ix, false))) + "}"; }
+  if (k == "validity") return "{\"ok\":1,\"text\":" + jstr(first_line(arr->validityerror("layout"))) + "}";
+  throw HarnessError("virtual op " + k);
+}
+
+static std::string virtual_run(const JV& st, Session& S) {
+  std::shared_ptr<GenState> gs = std::make_shared<GenState>();
+  gs->eager = mklayout(need(st, "eager"), S);
+  gs->mode = gets(st, "mode", "ok");
+  if (gs->mode == "short") gs->alt = gs->eager->getitem_range_nowrap(0, gs->eager->length() > 0 ? gs->eager->length() - 1 : 0);
+  if (gs->mode == "wrongform") gs->alt = mklayout(need(st, "alt"), S);
+  bool dlen = geti(st, "declare_length", 0) != 0, dform = geti(st, "declare_form", 0) != 0;
+  ak::FormPtr form = dform ? gs->eager->form(true) : ak::FormPtr(nullptr);
+  int64_t length = dlen ? gs->eager->length() : -1;
+  std::string ckind = gets(st, "cache", "none");
+  std::shared_ptr<TestCache> cache = ckind == "none" ? std::shared_ptr<TestCache>(nullptr) : std::make_shared<TestCache>(ckind);
+  ak::ArrayGeneratorPtr gen = std::make_shared<TestGenerator>(form, length, gs);
+  ak::ContentPtr virt = std::make_shared<ak::VirtualArray>(ak::Identities::none(), ak::util::Parameters(), gen, cache, "key0");
+  ak::ContentPtr subject = virt, reference = gs->eager;
+  if (st.HasMember("wrap_offsets")) {       // the virtual node below a list node
+    ak::Index64 offs = mkindex64(st["wrap_offsets"]);
+    subject = std::make_shared<ak::ListOffsetArray64>(ak::Identities::none(), ak::util::Parameters(), offs, virt);
+    reference = std::make_shared<ak::ListOffsetArray64>(ak::Identities::none(), ak::util::Parameters(), offs, gs->eager);
+  }
+  std::string out = "{\"ok\":1,\"steps\":[";
+  bool first = true;
+  for (auto& o : need(st, "schedule").GetArray()) {
+    std::string r, ev;
+    std::string k = gets(o, "op", "");
+    if (k == "evict") { if (cache) cache->evict(); r = "{\"ok\":1}"; ev = r; }
+    else {
+      try { r = virtual_op(subject, o); } CATCH_ALL(r)
+      try { ev = virtual_op(reference, o); } CATCH_ALL(ev)
+    }
+    out += (first ? "" : ","); first = false;
+    out += "{\"virt\":" + r + ",\"eager\":" + ev + ",\"calls\":" + std::to_string((long long)gs->calls)
+         + ",\"held\":" + std::to_string((long long)(cache ? cache->held() : 0)) + "}";
+  }
+  return out + "]}";
+}
+
+// ------------------------------------------------------------------ IrregularlyPartitionedArray (C18)
+static std::string partition_run(const JV& st, Session& S) {
+  ak::ContentPtr whole = mklayout(need(st, "eager"), S);
+  std::vector<int64_t> stops;
+  ak::ContentPtrVec parts;
+  int64_t last = 0;
+  for (auto& x : need(st, "stops").GetArray()) {
+    int64_t s = x.GetInt64();
+    parts.push_back(whole->getitem_range_nowrap(last, s));
+    stops.push_back(s);
+    last = s;
+  }
+  ak::PartitionedArrayPtr p = std::make_shared<ak::IrregularlyPartitionedArray>(parts, stops);
+  std::string out = "{\"ok\":1,\"steps\":[";
+  bool first = true;
+  for (auto& o : need(st, "schedule").GetArray()) {
+    std::string r, ev;
+    std::string k = gets(o, "op", "");
+    try {
+      if (k == "length") r = "{\"ok\":1,\"int\":" + std::to_string((long long)p->length()) + "}";
+      else if (k == "tojson") r = "{\"ok\":1,\"text\":" + jstr(p->tojson(false, -1)) + "}";
+      else if (k == "at") r = "{\"ok\":1,\"text\":" + jstr(observe(p->getitem_at(geti(o, "i", 0)))) + "}";
+      else if (k == "range") r = "{\"ok\":1,\"text\":" + jstr(p->getitem_range(geti(o, "a", 0), geti(o, "b", 0), geti(o, "s", 1))->tojson(false, -1)) + "}";
+      else if (k == "repartition") {
+        std::vector<int64_t> ns;
+        for (auto& x : need(o, "stops").GetArray()) ns.push_back(x.GetInt64());
+        p = p->repartition(ns);
+        std::string lens = "[";
+        for (int64_t i = 0; i < p->numpartitions(); i++) lens += (i ? "," : "") + std::to_string((long long)p->partition(i)->length());
+        r = "{\"ok\":1,\"text\":" + jstr(p->tojson(false, -1)) + ",\"lens\":" + lens + "]}";
+      }
+      else throw HarnessError("partition op " + k);
+    } CATCH_ALL(r)
+    try {
+      if (k == "length") ev = "{\"ok\":1,\"int\":" + std::to_string((long long)whole->length()) + "}";
+      else if (k == "tojson" || k == "repartition") ev = "{\"ok\":1,\"text\":" + jstr(observe(whole)) + "}";
+      else if (k == "at") ev = "{\"ok\":1,\"text\":" + jstr(observe(whole->getitem_at(geti(o, "i", 0)))) + "}";
+      else if (k == "range") {
+        ak::Slice sl; sl.append(std::make_shared<ak::SliceRange>(geti(o, "a", 0), geti(o, "b", 0), geti(o, "s", 1))); sl.become_sealed();
+        ev = "{\"ok\":1,\"text\":" + jstr(observe(whole->getitem(sl))) + "}";
+      }
+    } CATCH_ALL(ev)
+    out += (first ? "" : ","); first = false;
+    out += "{\"virt\":" + r + ",\"eager\":" + ev + "}";
+  }
+  return out + "]}";
+}
+
 // ------------------------------------------------------------------ AwkwardForth
 template <typename T, typename I>
 static std::string forth_state(ak::ForthMachineOf<T, I>& vm, const std::vector<std::string>& innames) {
@@ -332,6 +499,8 @@ bool other_ops(const std::string& op, const JV& st, Session& S, std::string& out
     if (op == "builder_run") { out = builder_run(st); return true; }
     if (op == "json_parse") { out = json_parse(st, S); return true; }
     if (op == "json_write") { out = json_write(st, S); return true; }
+    if (op == "virtual_run") { out = virtual_run(st, S); return true; }
+    if (op == "partition_run") { out = partition_run(st, S); return true; }
     if (op == "forth_run") {
       if (geti(st, "bits", 32) == 64) out = forth_run_T<int64_t, int32_t>(st);
       else out = forth_run_T<int32_t, int32_t>(st);
